@@ -195,7 +195,28 @@ def check(prog: Program, tier: str) -> Result:
     _check_extents(prog, res)
     _check_primitives(prog, res)
     _check_shapes(prog, res)
+    _check_memo(prog, res)
     return res
+
+
+def _check_memo(prog: Program, res: Result):
+    """R03.6: the domain / coordinate generators are pure functions of their arguments: none hands back a stored result under a
+    key that leaves out one of its parameters (a candidate list built for another b_min / land would be returned)"""
+    from ..memo import memo_bypass
+
+    n = 0
+    for modn in (DOM, COORD):
+        for name, fi in sorted(prog.module(modn).functions.items()):
+            n += 1
+            for r, store, key, missing in memo_bypass(prog, fi):
+                ok = not missing
+                res.ob("R03.6", f"{fi.name}: 'return {store}[{key[:40]}]' - the key depends on every parameter", ok, prog.loc(fi, r))
+                if not ok:
+                    res.violation("R03.6", f"memo|{fi.name}|{store}|{missing}", prog.loc(fi, r), fi.qualname,
+                                  f"{fi.name}() returns the stored {store}[{key[:60]}] although the key does not depend on {missing}: "
+                                  "candidate fields built for other values of those parameters are handed back (spacing below b_min, fields off the land)")
+    res.ob("R03.6", f"no generator of {DOM.split('.')[-1]} / {COORD.split('.')[-1]} returns a stored result under an incomplete key ({n} functions)", not any(f.rule == "R03.6" for f in res.findings), "ghedesigner/")
+
 
 
 def _origin(names, raw, stmts):
@@ -930,6 +951,12 @@ def _check_shapes(prog: Program, res: Result):
 
 
 VARIANTS = [
+    Variant("nested bi-rectangle domain memoised under a key without b_min (seeded C03_f)", "break",
+            [(DOM, "def bi_rectangle_nested(", "_nested_domains: dict = {}\n\n\ndef bi_rectangle_nested("),
+             (DOM, "    # find the maximum number of boreholes as a float\n    n_2_max = (length_2 / b_min) + 1\n    n_2_min = (length_2 / b_max_2) + 1\n", "    key = (length_1, length_2, b_max_1, b_max_2, transpose)\n    if key in _nested_domains:\n        return _nested_domains[key]\n    # find the maximum number of boreholes as a float\n    n_2_max = (length_2 / b_min) + 1\n    n_2_min = (length_2 / b_max_2) + 1\n")], "R03.6"),
+    Variant("nested bi-rectangle domain memoised under a key that names every input", "benign",
+            [(DOM, "def bi_rectangle_nested(", "_nested_domains: dict = {}\n\n\ndef bi_rectangle_nested("),
+             (DOM, "    # find the maximum number of boreholes as a float\n    n_2_max = (length_2 / b_min) + 1\n    n_2_min = (length_2 / b_max_2) + 1\n", "    key = (length_1, length_2, b_min, b_max_1, b_max_2, transpose)\n    if key in _nested_domains:\n        return _nested_domains[key]\n    # find the maximum number of boreholes as a float\n    n_2_max = (length_2 / b_min) + 1\n    n_2_min = (length_2 / b_max_2) + 1\n")]),
     Variant("bi_rectangular: full grid built with the short side's count on both axes", "break",
             [(DOM, "        coordinates = rectangle(n_1, n_2, b_1, b_2)", "        coordinates = rectangle(n_2, n_2, b_1, b_2)")], "R03.4"),
     Variant("bi_rectangular: the two spacings handed over in the wrong order", "break",
